@@ -1,6 +1,8 @@
 package chaingen
 
 import (
+	"fmt"
+
 	"go.sia.tech/core/types"
 	"verif/harness/internal/rng"
 )
@@ -25,6 +27,27 @@ func (e *Env) Other() (types.PrivateKey, types.UnlockConditions, types.Address) 
 
 // WalletKinds are the additional transaction kinds of AddTxW.
 var WalletKinds = []string{"w-sf-send", "w-sf-other", "w-v2-renew-final"}
+
+// WalletKinds2 adds the kinds of GenW2.
+var WalletKinds2 = []string{"w-sf-send", "w-sf-other", "w-v2-renew-final", "w-fund-other", "w-pass-through"}
+
+// spendableOf returns addr's mature, unreserved siacoin elements worth at least min, in a stable order.
+func (b *Builder) spendableOf(addr types.Address, min types.Currency) []types.SiacoinElement {
+	var out []types.SiacoinElement
+	for _, e := range b.L.SC {
+		if e.SiacoinOutput.Address == addr && e.MaturityHeight <= b.height()+1 && !b.reserved[types.Hash256(e.ID)] && e.SiacoinOutput.Value.Cmp(min) >= 0 {
+			out = append(out, e)
+		}
+	}
+	sortBy(out, func(e types.SiacoinElement) types.Hash256 { return types.Hash256(e.ID) })
+	return out
+}
+
+// OtherHasFunds reports whether the other party could pay the wallet now.
+func (b *Builder) OtherHasFunds() bool {
+	_, _, oaddr := b.Env.Other()
+	return len(b.spendableOf(oaddr, types.Siacoins(10))) > 0
+}
 
 func (b *Builder) siafundsOf(addr types.Address) []types.SiafundElement {
 	var out []types.SiafundElement
@@ -160,6 +183,80 @@ func (b *Builder) AddTxW(r *rng.R, kind string) bool {
 			return b.addV2(kind, txn)
 		}
 		return false
+	case "w-fund-other":
+		// the wallet pays the other party, so that it can pay the wallet later
+		sp := b.spendable()
+		if len(sp) == 0 {
+			return false
+		}
+		in := sp[r.Intn(len(sp))]
+		fee, gift := types.Siacoins(1), types.Siacoins(12)
+		if in.SiacoinOutput.Value.Cmp(types.Siacoins(40)) < 0 {
+			return false
+		}
+		outs := []types.SiacoinOutput{{Address: oaddr, Value: gift}, {Address: oaddr, Value: gift}, {Address: b.Env.Addr, Value: in.SiacoinOutput.Value.Sub(gift).Sub(gift).Sub(fee)}}
+		if b.v1Allowed() && (!b.v2Allowed() || r.Bool()) {
+			txn := types.Transaction{SiacoinInputs: []types.SiacoinInput{{ParentID: in.ID, UnlockConditions: b.Env.UC}}, SiacoinOutputs: outs, MinerFees: []types.Currency{fee}}
+			b.signV1(&txn)
+			return b.addV1(kind, txn)
+		} else if b.v2Allowed() {
+			txn := types.V2Transaction{SiacoinInputs: []types.V2SiacoinInput{{Parent: in.Copy()}}, SiacoinOutputs: outs, MinerFee: fee}
+			b.signV2(&txn)
+			return b.addV2(kind, txn)
+		}
+		return false
+	case "w-pass-through":
+		// the other party pays the wallet and the wallet forwards exactly that unconfirmed output,
+		// with no change back to itself, in the same block: the wallet's output is created and
+		// spent inside the block (ephemeral)
+		osp := b.spendableOf(oaddr, types.Siacoins(10))
+		if len(osp) == 0 {
+			return false
+		}
+		in := osp[r.Intn(len(osp))]
+		fee, pay := types.Siacoins(1), types.Siacoins(5)
+		dest := b.Env.Payees[r.Intn(len(b.Env.Payees))]
+		if r.Bool() {
+			dest = oaddr
+		}
+		if b.v1Allowed() && (!b.v2Allowed() || r.Bool()) {
+			parent := types.Transaction{
+				SiacoinInputs:  []types.SiacoinInput{{ParentID: in.ID, UnlockConditions: ouc}},
+				SiacoinOutputs: []types.SiacoinOutput{{Address: b.Env.Addr, Value: pay}, {Address: oaddr, Value: in.SiacoinOutput.Value.Sub(pay).Sub(fee)}},
+				MinerFees:      []types.Currency{fee},
+			}
+			b.signV1Mixed(&parent, map[types.Hash256]bool{types.Hash256(in.ID): true})
+			child := types.Transaction{
+				SiacoinInputs:  []types.SiacoinInput{{ParentID: parent.SiacoinOutputID(0), UnlockConditions: b.Env.UC}},
+				SiacoinOutputs: []types.SiacoinOutput{{Address: dest, Value: pay.Sub(fee)}},
+				MinerFees:      []types.Currency{fee},
+			}
+			b.signV1(&child)
+			if _, err := b.CM.AddPoolTransactions([]types.Transaction{parent, child}); err != nil {
+				if Debug {
+					fmt.Println("chaingen:", kind, err)
+				}
+				return false
+			}
+			b.reserveV1(parent)
+			b.Kinds = append(b.Kinds, kind)
+			return true
+		} else if b.v2Allowed() {
+			parent := types.V2Transaction{
+				SiacoinInputs:  []types.V2SiacoinInput{{Parent: in.Copy()}},
+				SiacoinOutputs: []types.SiacoinOutput{{Address: b.Env.Addr, Value: pay}, {Address: oaddr, Value: in.SiacoinOutput.Value.Sub(pay).Sub(fee)}},
+				MinerFee:       fee,
+			}
+			b.signV2Mixed(&parent)
+			child := types.V2Transaction{
+				SiacoinInputs:  []types.V2SiacoinInput{{Parent: parent.EphemeralSiacoinOutput(0)}},
+				SiacoinOutputs: []types.SiacoinOutput{{Address: dest, Value: pay.Sub(fee)}},
+				MinerFee:       fee,
+			}
+			b.signV2(&child)
+			return b.addV2(kind, parent, child)
+		}
+		return false
 	case "w-v2-renew-final":
 		if !b.v2Allowed() {
 			return false
@@ -248,6 +345,75 @@ func GenW(r *rng.R, env *Env, o GenOpts) *Tree {
 			b.AddTxW(r, kinds[r.Intn(len(kinds))])
 		}
 		blk, ks := b.Mine(r)
+		if _, dup := t.ByID[blk.ID()]; dup {
+			panic("chaingen: duplicate block id")
+		}
+		n := &Node{Block: blk, ID: blk.ID(), Parent: parent, Height: parent.Height + 1, Kinds: ks, HdrOK: true, BodyOK: true}
+		cs, _ := b.CM.State(n.ID)
+		n.State, n.FullState = cs, cs
+		t.add(n)
+		builders[n] = b
+	}
+	for i := 0; i < o.Corruptions; i++ {
+		t.AddCorrupted(r)
+	}
+	for i := 0; i < o.OnInvalid; i++ {
+		t.AddOnInvalid(r)
+	}
+	return t
+}
+
+// GenW2 is GenW plus payments from the other party to the wallet (w-fund-other makes them
+// possible) and, one block in four once the other party has funds, a block in which the wallet
+// takes part only through pass-through outputs, mined by somebody else.
+func GenW2(r *rng.R, env *Env, o GenOpts) *Tree {
+	t := &Tree{Env: env, ByID: map[types.BlockID]*Node{}}
+	_, cm := env.NewManager()
+	g := &Node{Idx: 0, Block: env.Genesis, ID: env.Genesis.ID(), HdrOK: true, BodyOK: true, State: cm.TipState(), FullState: cm.TipState()}
+	t.add(g)
+	builders := map[*Node]*Builder{}
+	kinds := o.Kinds
+	if kinds == nil {
+		kinds = append(append([]string(nil), TxKinds...), WalletKinds2...)
+		// contracts (tax revenue) and siafund movements are what the claims need: weight them up
+		kinds = append(kinds, "v1-form", "v2-form", "w-sf-send", "w-sf-other", "w-sf-other", "v1-siafund", "v2-siafund", "w-v2-renew-final", "w-fund-other", "w-fund-other")
+	}
+	for len(t.Nodes)-1 < o.Blocks {
+		var parent *Node
+		tips := t.validTips()
+		if o.Branchiness > 0 && r.Chance(1, o.Branchiness) && len(t.Nodes) > 1 {
+			parent = t.Nodes[r.Intn(len(t.Nodes))]
+		} else {
+			parent = tips[r.Intn(len(tips))]
+		}
+		b := builders[parent]
+		if b == nil {
+			b = env.NewBuilder(Blocks(t.Path(parent)))
+		} else {
+			delete(builders, parent)
+		}
+		b.Jitter = o.Jitter
+		var blk types.Block
+		var ks []string
+		if b.OtherHasFunds() && r.Chance(1, 4) {
+			// a block in which the wallet takes part only through pass-through outputs: nothing else
+			// of the wallet's in it, and the miner payout goes to somebody else
+			for i := 1 + r.Intn(2); i > 0; i-- {
+				b.AddTxW(r, "w-pass-through")
+			}
+			for {
+				s := r.U64()
+				if !rng.New(s).Chance(1, 3) { // Mine's first draw decides whether the wallet mines
+					blk, ks = b.Mine(rng.New(s))
+					break
+				}
+			}
+		} else {
+			for i := 0; i < o.TxPerBlock; i++ {
+				b.AddTxW(r, kinds[r.Intn(len(kinds))])
+			}
+			blk, ks = b.Mine(r)
+		}
 		if _, dup := t.ByID[blk.ID()]; dup {
 			panic("chaingen: duplicate block id")
 		}
